@@ -72,7 +72,7 @@ func c16Gen(r *Rng, tier string, i int) Sx {
 		mask = (i*37 + r.Intn(3)) % 128
 	}
 	uses := r.Bool()
-	base := r.Pick([]string{"/", "/api/", "", "/v1/admin/", "api", "/a.b/", "/API/v1/", "/Orgs/", "/v1.2/", "/api/v1.0/", "v2."})
+	base := r.Pick([]string{"/", "/api/", "", "/v1/admin/", "api", "/a.b/", "/API/v1/", "/Orgs/", "/v1.2/", "/api/v1.0/", "v2.", "/u/{uid}/", "/{org}/", "/t/{tid:\\d+}/x/"})
 	strict := r.Chance(1, 6)
 	kind := "ptr"
 	if r.Chance(1, 15) {
@@ -99,11 +99,15 @@ func c16Gen(r *Rng, tier string, i int) Sx {
 	}
 	// where the resource lives: base path + resource name, as a group prefix ("/api/" + "ctl005" -> "/api/ctl005", "api" + "ctl005" -> "/apictl005")
 	g := "/" + strings.Trim(base+res, "/")
+	// (a base path may hold variables - a resource nested under another one: the probes instantiate them)
+	g = strings.NewReplacer("{uid}", "u1", "{org}", "acme", "{tid:\\d+}", "42").Replace(g)
 	g0 := g
 	if ng > 0 {
 		g = "/g" + g
 	}
-	paths := []string{g, g + "/", g + "/create", g + "/7", g + "/7/edit", g + "/create/edit", g + "/7/x", g + "/x/y/z", "/", g + "x"}
+	paths := []string{g, g + "/", g + "/create", g + "/7", g + "/7/edit", g + "/create/edit", g + "/7/x", g + "/x/y/z", "/", g + "x",
+		// (with StrictLastSlash the routes of the non-index actions end in a slash: /res/create/, /res/{id}/, /res/{id}/edit/)
+		g + "/create/", g + "/7/", g + "/7/edit/"}
 	// the same controller registered a second time under another base path (its route names are then taken over)
 	twice := kind == "ptr" && r.Chance(1, 5)
 	if twice {
